@@ -340,7 +340,17 @@ impl GraphSpace {
         if self.redges.is_empty() {
             1
         } else {
-            3 + 2 * self.redges.len()
+            5 + 2 * self.redges.len()
+        }
+    }
+    /// Where every module writes its declaration: 0 = after its `use` statements, 1 = before
+    /// all of them, 2 = after the first one (the last two spelling choices; plain paths).
+    fn decl_pos(&self, spelling: usize) -> usize {
+        let e = self.redges.len();
+        if e > 0 && spelling > 2 * e + 2 {
+            spelling - 2 * e - 2
+        } else {
+            0
         }
     }
     fn missing_node(v: &Variant) -> Option<usize> {
@@ -356,8 +366,10 @@ impl GraphSpace {
             } else {
                 0
             }
-        } else {
+        } else if spelling <= 2 * e + 2 {
             spelling - 2 * e
+        } else {
+            0
         }
     }
     /// Number of `use` statements of module `a` (independent of spelling and order).
@@ -410,7 +422,7 @@ impl GraphSpace {
         Case {
             g: self.g.clone(),
             missing: Self::missing_node(v),
-            files: texts(&self.g, &stmts),
+            files: texts(&self.g, &stmts, self.decl_pos(v.spelling)),
         }
     }
     fn canonical(&self, missing: usize) -> Variant {
@@ -434,7 +446,8 @@ impl GraphSpace {
             },
             "spelling": if v.spelling == 0 { json!("all m.oal") } else if v.spelling <= 2 * e {
                 json!({"edge": edge((v.spelling - 1) / 2), "as": SPELL_NAME[(v.spelling - 1) % 2 + 1]})
-            } else { json!(format!("all {}", SPELL_NAME[v.spelling - 2 * e])) },
+            } else if v.spelling <= 2 * e + 2 { json!(format!("all {}", SPELL_NAME[v.spelling - 2 * e])) }
+            else { json!(format!("all m.oal, the declaration of every module {}", if self.decl_pos(v.spelling) == 1 { "before its use statements" } else { "after its first use statement" })) },
             "order_index": v.order,
         })
     }
@@ -444,11 +457,23 @@ impl GraphSpace {
 /// property per imported module holding that module's value, so the document emitted for
 /// main depends on every reachable module. Properties are written in sorted order so that
 /// the text of the document is the same for every order of the `use` statements.
-fn texts(g: &Graph, stmts: &[Vec<Stmt>]) -> BTreeMap<String, String> {
+fn texts(g: &Graph, stmts: &[Vec<Stmt>], decl_pos: usize) -> BTreeMap<String, String> {
     let mut files = BTreeMap::new();
     for k in 0..g.n {
+        let mut decl = String::new();
+        let _ = write!(decl, "let v{k} = {{ 'p{k} str");
+        for j in &g.adj[k] {
+            let _ = write!(decl, ", 'm{j} m{j}.v{j}");
+        }
+        decl.push_str(" };\n");
+        if k == 0 {
+            decl.push_str("res / on get -> <v0>;\n");
+        }
         let mut s = String::new();
-        for st in &stmts[k] {
+        if decl_pos == 1 {
+            s.push_str(&decl);
+        }
+        for (i, st) in stmts[k].iter().enumerate() {
             match st {
                 Stmt::Use { target, spell } => {
                     let _ = writeln!(s, "use \"{}{}\" as m{target};", SPELL[*spell], rel_path(k, *target));
@@ -457,14 +482,12 @@ fn texts(g: &Graph, stmts: &[Vec<Stmt>]) -> BTreeMap<String, String> {
                     let _ = writeln!(s, "use \"{MISSING_FILE}\" as zz;");
                 }
             }
+            if decl_pos == 2 && i == 0 {
+                s.push_str(&decl);
+            }
         }
-        let _ = write!(s, "let v{k} = {{ 'p{k} str");
-        for j in &g.adj[k] {
-            let _ = write!(s, ", 'm{j} m{j}.v{j}");
-        }
-        s.push_str(" };\n");
-        if k == 0 {
-            s.push_str("res / on get -> <v0>;\n");
+        if decl_pos == 0 || (decl_pos == 2 && stmts[k].is_empty()) {
+            s.push_str(&decl);
         }
         files.insert(url_of(k), s);
     }
@@ -1198,7 +1221,7 @@ impl Engine for C10 {
         }
     }
     fn rule(&self) -> String {
-        "every directed graph on N nodes (2^(N*N) adjacency matrices, self loops included, fewest edges first) read as the import relation of main.oal, m1.oal, ... laid out in one directory and, in the bounds that name a layout, (1) with the imported modules side by side in a sub-directory (a/m1.oal, a/m2.oal, ...), (2) with the same file name in several directories (a/m.oal, m.oal, a/b/m.oal, b/m.oal) and (3) with two pairs of equally named files (a/m1.oal, m2.oal, a/m2.oal, m1.oal), every `use` spelling the target relative to the importing file (so the same spelling denotes different files from different modules, and `..` segments occur); module k is `use \"mj.oal\" as mj;` for each import, `let vk = { 'pk str, 'mj mj.vj ... };`, and main adds `res / on get -> <v0>;`, so the document depends on every reachable module. Per graph the product of: (a) optional `use \"zz.oal\"` (no such file) appended to one module (N+1 choices, unreachable modules included); (b) optional duplicate of one `use` (each edge leaving a reachable module; copy with the same or with the next spelling); (c) spelling of the paths over {m.oal, ./m.oal, d/../m.oal}: all plain, each single reachable edge with each alternative, all edges with each alternative (3+2E choices, not the 3^E product); (d) order of the `use` statements of every reachable module: for N<=3 every permutation of lists of <= 3 statements (so every order of every out-degree) and, for the lists of 4 or 5 statements that arise when a 3-import module also gets the duplicate and/or the missing import, the 2L rotations of the sorted list and of its reverse; for N=4 every permutation of lists of <= 2 statements, longer lists sorted and reversed. Statements of modules unreachable from main are not varied (a correct loader never reads them; reading them is caught in every configuration). Bounds named `full product` cross (a) x (b) x (c) x (d); the bound named `reduced product` (N=3 in the quick tier) takes (c) x (d) without duplicate and missing import, plus (a) x (b) x (d) with plain spelling (the copy of a duplicated use still takes the same or the next spelling); the bound named `separate axes` (N=4) takes (c) x (d), (a) x (d) and (b) x (d). Each configuration runs the real module::load with a recording in-memory Loader (real parse, real compile), then eval + OpenAPI builder + YAML. Oracle: DFS reachability and three-colour cycle detection; result class; load/parse/compile exactly once for exactly the reachable modules; compile(b) before compile(a) for every import a->b; response schema equal to the tree unfolding of the graph; result class and YAML text equal to those of the canonical configuration (sorted order, plain spelling, no duplicate) of the same graph. A configuration is trivial when main imports nothing and nothing is missing; distinct = distinct (result, call trace, document) triples".into()
+        "every directed graph on N nodes (2^(N*N) adjacency matrices, self loops included, fewest edges first) read as the import relation of main.oal, m1.oal, ... laid out in one directory and, in the bounds that name a layout, (1) with the imported modules side by side in a sub-directory (a/m1.oal, a/m2.oal, ...), (2) with the same file name in several directories (a/m.oal, m.oal, a/b/m.oal, b/m.oal) and (3) with two pairs of equally named files (a/m1.oal, m2.oal, a/m2.oal, m1.oal), every `use` spelling the target relative to the importing file (so the same spelling denotes different files from different modules, and `..` segments occur); module k is `use \"mj.oal\" as mj;` for each import, `let vk = { 'pk str, 'mj mj.vj ... };`, and main adds `res / on get -> <v0>;`, so the document depends on every reachable module. Per graph the product of: (a) optional `use \"zz.oal\"` (no such file) appended to one module (N+1 choices, unreachable modules included); (b) optional duplicate of one `use` (each edge leaving a reachable module; copy with the same or with the next spelling); (c) spelling of the paths over {m.oal, ./m.oal, d/../m.oal}: all plain, each single reachable edge with each alternative, all edges with each alternative, and plain paths with the declaration of every module written before its `use` statements or after the first of them (5+2E choices, not the 3^E product); (d) order of the `use` statements of every reachable module: for N<=3 every permutation of lists of <= 3 statements (so every order of every out-degree) and, for the lists of 4 or 5 statements that arise when a 3-import module also gets the duplicate and/or the missing import, the 2L rotations of the sorted list and of its reverse; for N=4 every permutation of lists of <= 2 statements, longer lists sorted and reversed. Statements of modules unreachable from main are not varied (a correct loader never reads them; reading them is caught in every configuration). Bounds named `full product` cross (a) x (b) x (c) x (d); the bound named `reduced product` (N=3 in the quick tier) takes (c) x (d) without duplicate and missing import, plus (a) x (b) x (d) with plain spelling (the copy of a duplicated use still takes the same or the next spelling); the bound named `separate axes` (N=4) takes (c) x (d), (a) x (d) and (b) x (d). Each configuration runs the real module::load with a recording in-memory Loader (real parse, real compile), then eval + OpenAPI builder + YAML. Oracle: DFS reachability and three-colour cycle detection; result class; load/parse/compile exactly once for exactly the reachable modules; compile(b) before compile(a) for every import a->b; response schema equal to the tree unfolding of the graph; result class and YAML text equal to those of the canonical configuration (sorted order, plain spelling, no duplicate) of the same graph. A configuration is trivial when main imports nothing and nothing is missing; distinct = distinct (result, call trace, document) triples".into()
     }
     fn assumptions(&self) -> Vec<String> {
         vec![
